@@ -728,6 +728,15 @@ fn refuse_case(cx: &mut Cx, name: &str, seed: u64)
 			".addr 0x20000010;\nNOP;\n.addr 0x20000008;\n.include \"fill.asm\";\n.dfile \"fill.bin\";\n.addr 0x20000010;\n.addr 0x20000040;\nNOP;\n".to_owned()},
 		"cursor-top" => format!(".addr 0xFFFFFFF{:X};\n.dhex \"{}\";\n.addr 0xFFFFFFFF;\n", 16 - n.min(15), "5a".repeat(n.min(15))),
 		"cursor-top-label" => ".addr 0xFFFFFFFE;\nNOP;\n.addr 0xFFFFFFFF;\nx:\n".to_owned(),
+		// a file longer than the gap below a closed region (or below the end of the address space)
+		n if n.starts_with("dfile-gap-") =>
+		{
+			let w: Vec<usize> = n["dfile-gap-".len()..].split('-').filter_map(|x| x.parse().ok()).collect();
+			let (len, gap) = (w[0], w[1] as u32);
+			std::fs::write(dir.join("blob.bin"), (0..len).map(|i| (i as u8).wrapping_mul(7).wrapping_add(seed as u8) | 1).collect::<Vec<u8>>()).unwrap();
+			if seed % 3 == 0 {format!(".addr 0x{:X};\n.dfile \"blob.bin\";\n", 0xFFFF_FFFFu32 - gap + 1)}
+			else {format!(".addr 0x20001000;\n.du32 0xAABBCCDD;\n.addr 0x{:X};\n{}.dfile \"blob.bin\";\n", 0x2000_1000u32 - gap, if seed % 3 == 1 {""} else {"NOP;\n"})}
+		},
 		_ => {cx.report.oracle_fail(input, "unrecognised replay input"); return;},
 	};
 	std::fs::write(dir.join("main.asm"), &main).unwrap();
@@ -750,7 +759,36 @@ fn refuse_case(cx: &mut Cx, name: &str, seed: u64)
 	let _ = std::fs::remove_dir_all(&dir);
 }
 
-const REFUSE_CASES: [&str; 10] = ["crc-du32", "crc-dhex", "crc-dfile", "crc-two-regions", "crc-short-program", "crc-one-byte", "cursor-gap", "cursor-gap-include", "cursor-top", "cursor-top-label"];
+/// the fitting controls of the `.dfile`-into-a-gap cases (`fits <len> <gap> <seed>`): the file fills the gap partly or exactly; the
+/// output holds every byte of the file at its address and the region above it
+fn fits_case(cx: &mut Cx, len: usize, gap: u32, seed: u64)
+{
+	let input = format!("fits {len} {gap} {seed}");
+	let dir = cx.work.join("trias-fits");
+	let _ = std::fs::remove_dir_all(&dir);
+	std::fs::create_dir_all(&dir).unwrap();
+	let blob: Vec<u8> = (0..len).map(|i| (i as u8).wrapping_mul(7).wrapping_add(seed as u8) | 1).collect();
+	std::fs::write(dir.join("blob.bin"), &blob).unwrap();
+	let upper = 0x2000_1000u32;
+	std::fs::write(dir.join("main.asm"), format!(".addr 0x{upper:X};\n.du32 0xAABBCCDD;\n.addr 0x{:X};\n.dfile \"blob.bin\";\n", upper - gap)).unwrap();
+	let out = Command::new(repo_bin("trias")).arg("main.asm").arg("out.uf2").current_dir(&dir).output().expect("cannot run trias");
+	cx.report.case(Some(&input));
+	cx.report.hit("dfile that fits its gap (control)");
+	match std::fs::read(dir.join("out.uf2")).ok().and_then(|f| read_uf2(&f).ok())
+	{
+		None => cx.report.oracle_fail(input, format!("a {len}-byte file in a gap of {gap} bytes is refused or the output is unreadable: {}", String::from_utf8_lossy(&out.stderr).lines().next().unwrap_or(""))),
+		Some(blocks) =>
+		{
+			let mut img: BTreeMap<u64, u8> = BTreeMap::new();
+			for b in &blocks {for (k, x) in b.data[..b.psize as usize].iter().enumerate() {img.insert(b.addr as u64 + k as u64, *x);}}
+			let ok = blob.iter().enumerate().all(|(k, x)| img.get(&((upper - gap) as u64 + k as u64)) == Some(x)) && [0xDD, 0xCC, 0xBB, 0xAA].iter().enumerate().all(|(k, x)| img.get(&(upper as u64 + k as u64)) == Some(x));
+			if !ok {cx.report.oracle_fail(input, "the output does not hold every byte of the file and of the region above it");}
+		},
+	}
+	let _ = std::fs::remove_dir_all(&dir);
+}
+
+const REFUSE_CASES: [&str; 19] = ["dfile-gap-10-4", "dfile-gap-100-4", "dfile-gap-5000-4", "dfile-gap-100-12", "dfile-gap-13-12", "dfile-gap-5000-12", "dfile-gap-257-256", "dfile-gap-5000-256", "dfile-gap-1025-1024", "crc-du32", "crc-dhex", "crc-dfile", "crc-two-regions", "crc-short-program", "crc-one-byte", "cursor-gap", "cursor-gap-include", "cursor-top", "cursor-top-label"];
 
 pub fn run(_id: &str, cx: &mut Cx)
 {
@@ -767,6 +805,12 @@ non-trivial = an output file was written; distinct = distinct output files".to_o
 	if let Some(input) = cx.replay.clone()
 	{
 		if let Some(name) = input.strip_prefix("cli ") {cli_case(cx, name); return;}
+		if let Some(rest) = input.strip_prefix("fits ")
+		{
+			let w: Vec<u64> = rest.split(' ').filter_map(|x| x.parse().ok()).collect();
+			if w.len() == 3 {fits_case(cx, w[0] as usize, w[1] as u32, w[2]);} else {cx.report.oracle_fail(input, "unrecognised replay input");}
+			return;
+		}
 		if let Some(rest) = input.strip_prefix("refuse ")
 		{
 			let w: Vec<&str> = rest.split(' ').collect();
@@ -782,6 +826,7 @@ non-trivial = an output file was written; distinct = distinct output files".to_o
 	}
 	for name in CLI_CASES {cli_case(cx, name);}
 	for name in REFUSE_CASES {for _ in 0..if cx.thorough() {40} else {6} {let seed = cx.rng.next(); refuse_case(cx, name, seed);}}
+	for (len, gap) in [(4usize, 4u32), (3, 4), (12, 12), (10, 12), (256, 256), (100, 256), (5000, 5000), (1024, 1024), (1025, 2000)] {let seed = cx.rng.next(); fits_case(cx, len, gap, seed);}
 	let n = if cx.thorough() {20_000} else {1_500};
 	for _ in 0..n
 	{
